@@ -252,14 +252,28 @@ def attach_cli():
     contracts.attach(p2a, "name_assemblies", on_call=on_call, label="C20.name_assemblies")
 
 
+def collapse(names):
+    out = []
+    for n in names:
+        if not out or out[-1] != n:
+            out.append(n)
+    return out
+
+
 def decompose(names, blocks):
-    """can `names` be written as a concatenation of whole, distinct blocks?"""
-    if not names:
-        return True
-    for i, b in enumerate(blocks):
-        if b and names[: len(b)] == b and decompose(names[len(b):], blocks[:i] + blocks[i + 1:]):
-            return True
-    return False
+    """can `names` (object names of a file, in order, runs of one name read as one object) be written as a
+    concatenation of whole, distinct blocks?  (Two same-named scaffolds of different merged assemblies that
+    follow each other in a file read as one - that is C07's known finding D11, not an ordering fault.)"""
+    import itertools
+
+    blocks = [b for b in blocks if b]
+    if len(blocks) > 6:
+        blocks = [b for b in blocks if set(b) & set(names)]
+    for r in range(1, len(blocks) + 1):
+        for combo in itertools.permutations(range(len(blocks)), r):
+            if collapse([n for i in combo for n in blocks[i]]) == names:
+                return True
+    return not names
 
 
 def check_cli_order(cr, ctx):
@@ -308,6 +322,27 @@ def check_cli_order(cr, ctx):
             ranks = {r for k, rows in SNAP["sources"] for r, n in rows if n in set(got)}
             if len(ranks) > 1:
                 ctx.count("cli:all_haplotigs-with-several-ranks")
+    # the chromosome list beside an assembly file lists its chromosomes in the order the file has them
+    files = cli_runs.output_files(cr)
+    for name, data in files.items():
+        if not name.endswith(".chromosome.list.csv"):
+            continue
+        agp = next((n for n in files if n.endswith(".agp") and n.startswith(name[: -len("chromosome.list.csv")])), None)
+        if agp is None:
+            continue
+        csv_names = [ln.split(",")[0] for ln in data.decode().splitlines() if ln.strip()]
+        in_file = []
+        for line in files[agp].decode().splitlines():
+            if line and not line.startswith("#"):
+                obj = line.split("\t", 1)[0]
+                if (not in_file or in_file[-1] != obj) and obj in set(csv_names):
+                    in_file.append(obj)
+        ctx.count("cli:chromosome-list-order-checked")
+        if len(csv_names) >= 3:
+            ctx.count("cli:chromosome-list-with-3-or-more-lines")
+        if collapse(csv_names) != collapse(in_file):  # (runs of one name: C07's known finding D11, not an ordering fault)
+            ctx.violation("chromosome-list-order-differs-from-assembly-file", f"{name}: {csv_names}\n{agp}: {in_file}", case)
+            return
     if nfiles:
         ctx.count("cli:order-checked")
 
@@ -323,8 +358,11 @@ def run_cli(shard, ctx):
     for i in range(shard["n"]):
         rng = rng_for(shard["seed"], "c20cli", shard["index"], i)
         d = base / f"c{i}"
-        k = i % 3
-        if k == 0:
+        k = i % 4
+        if k == 3:
+            cr = cli_runs.text_case(rng, d, fmt="agp", nhap=rng.choice([3, 4]))
+            ctx.count("cli:three-or-more-haplotypes")
+        elif k == 0:
             cr = cli_runs.text_case(rng, d, fmt="agp", tagged=True, two_hap=True, unprefixed=True, primary=True)
         elif k == 1:
             cr = cli_runs.text_case(rng, d, fmt="agp", tagged=True, two_hap=True, unprefixed=rng.random() < 0.5)
@@ -389,5 +427,5 @@ def plan(tier, seed):
 
 def gates(c, tier):
     need = {"sets:sorted": 2000, "law:numeric": 500, "law:roman": 500, "law:unloc": 500, "law:rename-resort": 200, "monitor_evals:name_natural_key": 50000,
-            "cli:order-checked": 100, "cli:all_haplotigs-with-several-ranks": 5, "cli:file-merged-from-several-assemblies": 5, "monitor_evals:name_assemblies": 100}
+            "cli:order-checked": 100, "cli:chromosome-list-with-3-or-more-lines": 30, "cli:three-or-more-haplotypes": 30, "cli:all_haplotigs-with-several-ranks": 5, "cli:file-merged-from-several-assemblies": 5, "monitor_evals:name_assemblies": 100}
     return [f"{k}>={v} (got {c.get(k, 0)})" for k, v in need.items() if c.get(k, 0) < v]
